@@ -199,6 +199,9 @@ func H_C19_copy() {
 	c, err := Map(m).Copy()
 	vAssert(err == nil, "copy: succeeds for JSON types")
 	vAssert(vDeepEq(m, map[string]interface{}(c)), "copy: the copy is deeply equal to the original")
+	jo, _ := Map(m).Json()
+	jc, _ := c.Json()
+	vAssert(string(jo) == string(jc), "copy: original and copy have the same JSON text (an empty list stays an empty list, not null)")
 	// a Map decoded with JsonUseNumber holds json.Number values; its copy holds them too
 	JsonUseNumber = true
 	num := []string{"1", "1.10", "12345678901234567890", "-0.5e3"}[vChoose(4)]
